@@ -33,6 +33,13 @@ oer_decode(const asn_codec_ctx_t *opt_codec_ctx,
 	/*
 	 * Invoke type-specific decoder.
 	 */
+	if(!type_descriptor->op->oer_decoder) {
+		/* OER is not defined for this type (SET, ANY) */
+		asn_dec_rval_t rval;
+		rval.code = RC_FAIL;
+		rval.consumed = 0;
+		return rval;
+	}
 	return type_descriptor->op->oer_decoder(opt_codec_ctx, type_descriptor, 0,
 		struct_ptr,	/* Pointer to the destination structure */
 		ptr, size	/* Buffer and its size */
